@@ -390,9 +390,18 @@ func finishCheck(o checkOpts, results []*funcResult, e *Engine, problems []strin
 		"wall_s":      time.Since(start).Seconds(),
 		"violations":  len(viols),
 	}
-	_ = os.MkdirAll(filepath.Join(o.verif, "evidence"), 0o755)
+	// VERIF_EVIDENCE_DIR: runs against a deliberately changed tree (tools/confirm_seed.sh) write their evidence
+	// elsewhere, so that the files under /verif/evidence always describe a run of the registered command
+	evDir := filepath.Join(o.verif, "evidence")
+	if d := os.Getenv("VERIF_EVIDENCE_DIR"); d != "" {
+		evDir = d
+	}
+	_ = os.MkdirAll(evDir, 0o755)
 	data, _ := json.MarshalIndent(ev, "", " ")
-	_ = os.WriteFile(filepath.Join(o.verif, "evidence", o.prop+".json"), append(data, '\n'), 0o644)
+	if err := os.WriteFile(filepath.Join(evDir, o.prop+".json"), append(data, '\n'), 0o644); err != nil {
+		fmt.Fprintln(os.Stderr, "d2vc: cannot write evidence:", err)
+		return 2
+	}
 	if !o.quiet {
 		fmt.Printf("%s %s: %d/%d claimed obligations discharged, %d new discharged, %d new undecided, %d violations, %.1fs\n",
 			o.prop, o.tier, nDischarged, nClaimed, newOK, newUndecided, len(viols), time.Since(start).Seconds())
